@@ -67,4 +67,4 @@ require (
 	lukechampine.com/blake3 v1.4.1 // indirect
 )
 
-replace github.com/celestiaorg/go-header => /repo
+replace github.com/celestiaorg/go-header => ../.build/inst
